@@ -4,6 +4,8 @@
 #include "common.hpp"
 #include <cstdio>
 #include <cstdlib>
+#include <cstring>
+#include <sstream>
 #include <memory>
 #include <cfenv>
 #include <cfloat>
@@ -262,9 +264,74 @@ static Matrix row_matrix(const Vector& v)
 	return Matrix(std::vector<std::vector<double>> {e});
 }
 
+// operator<< : the object is inserted into a string stream whose precision is 17 significant digits (so that every double
+// is recovered exactly by strtod); the text is cut into the fixed strings of the source (one word each) and numbers.
+static void put_printout(vh::Out& o, const std::string& t)
+{
+	static const std::pair<const char*, const char*> lits[] = {
+		{" , ", "CM"}, {"(", "LP"}, {")", "RP"}, {"⌈", "LC"}, {"⌉", "RC"}, {"⌊", "LF"}, {"⌋", "RF"},
+		{"|", "BAR"}, {"\t", "TAB"}, {"\n", "NL"}};
+	std::vector<std::string> words;
+	std::vector<double> numbers;
+	std::vector<int> is_num;
+	size_t p = 0;
+	while(p < t.size())
+	{
+		bool hit = false;
+		for(const auto& l : lits)
+		{
+			size_t n = strlen(l.first);
+			if(t.compare(p, n, l.first) == 0)
+			{
+				words.push_back(l.second);
+				is_num.push_back(0);
+				p += n;
+				hit = true;
+				break;
+			}
+		}
+		if(hit)
+			continue;
+		const char* b = t.c_str() + p;
+		char* e		  = nullptr;
+		double x	  = strtod(b, &e);
+		if(e == b || *b == ' ' || *b == '\t' || *b == '\n')
+		{
+			words.push_back("JUNK");
+			is_num.push_back(0);
+			p += 1;
+			continue;
+		}
+		numbers.push_back(x);
+		words.push_back("");
+		is_num.push_back(1);
+		p += (size_t)(e - b);
+	}
+	o.w("P");
+	o.i((long) words.size());
+	size_t k = 0;
+	for(size_t a = 0; a < words.size(); a++)
+	{
+		if(is_num[a])
+			o.f(numbers[k++]);
+		else
+			o.w(words[a]);
+	}
+}
+template <class X>
+static void put_stream(vh::Out& o, const X& x)
+{
+	std::ostringstream s;
+	s.precision(17);
+	s << x;
+	put_printout(o, s.str());
+}
+
 static void dispatch(const std::string& op, vh::Reader& r, vh::Out& o)
 {
-	if(op == "m_plus") { Matrix &A = rd_mat(r), &B = rd_mat(r); put(o, A.Plus(B)); }
+	if(op == "v_print") { const Vector& v = rd_vec(r); put_stream(o, v); }
+	else if(op == "m_print") { const Matrix& A = rd_mat(r); put_stream(o, A); }
+	else if(op == "m_plus") { Matrix &A = rd_mat(r), &B = rd_mat(r); put(o, A.Plus(B)); }
 	else if(op == "m_minus") { Matrix &A = rd_mat(r), &B = rd_mat(r); put(o, A.Minus(B)); }
 	else if(op == "m_op_plus") { Matrix &A = rd_mat(r), &B = rd_mat(r); put(o, A + B); }
 	else if(op == "m_op_minus") { Matrix &A = rd_mat(r), &B = rd_mat(r); put(o, A - B); }
